@@ -228,9 +228,10 @@ impl<'t, 'd> Pr<'t, 'd> {
                     self.last = b'{';
                     self.last_num = false;
                     self.interp_open = true;
-                    self.quiet += 1;
+                    // layout liberties apply inside the braces too (comments, line breaks, spaces
+                    // after `{`, between the tokens of the value and in front of `}`)
                     self.expr_bare(G::Tight, e);
-                    self.quiet -= 1;
+                    self.gap(G::Tight, "}");
                     self.put("}");
                 }
             }
